@@ -184,6 +184,26 @@ func c04(args []string) {
 			}
 		}
 	}
+	// header CRC field of a 14-byte header: every special-looking 16-bit value (only 0x0000 means "not set"), with the rest of
+	// the header intact or corrupted, alone and behind an intact file
+	{
+		ec := r.encCfg()
+		ec.protoVer, ec.headerSize = proto.V2, 14
+		out, err := encodeFit(ec, r.genFit(mesgGenCfg{wellFormed: true, maxFields: 3}, 1+r.intn(2), false))
+		if err == nil && len(out) > 18 {
+			for _, v := range []uint16{0x0000, 0xFFFF, 0x0001, 0x0100, 0x00FF, 0xFF00, 0x7FFF, 0x8000, 0xFFFE, uint16(r.intn(65536))} {
+				for _, corrupt := range []int{-1, 1, 2, 3} { // -1: header fields intact; else: that byte (protocol / profile version) flipped
+					m := append([]byte(nil), out...)
+					m[12], m[13] = byte(v), byte(v>>8)
+					if corrupt >= 0 {
+						m[corrupt] ^= 4
+					}
+					sweep = append(sweep, m, append(append([]byte(nil), out...), m...))
+					stat("header_crc_value_sweep", 2)
+				}
+			}
+		}
+	}
 	stat("header_size_sweep", len(sweep))
 	for i := -len(sweep); i < nref; i++ {
 		var b []byte
@@ -206,13 +226,15 @@ func c04(args []string) {
 				}
 				b = out
 				if len(b) > 14 && b[0] == 14 {
-					switch r.intn(4) {
+					switch r.intn(5) {
 					case 0:
 						b[12], b[13] = 0, 0
 					case 1:
 						b[12] ^= 1
 					case 2:
 						b[4], b[5], b[6], b[7] = 0, 0, 0, 0
+					case 3:
+						b[12], b[13] = byte(r.pick(0xFF, 0xFF, 0, 1)), byte(r.pick(0xFF, 0, 0xFF))
 					}
 				}
 			default:
